@@ -16,7 +16,7 @@ PROPERTY = "C13"
 LEVEL = "exploration"
 RULE = (
     "base scenarios: probe a {b0,w0,n0|all} x z slot x probe b {b1,c1,n0|all} x patches {2,3} x configuration "
-    "{3 angular scales; kpc scales; separation weighting} on catalogs with >= 2 objects per patch and bin; "
+    "{3 angular scales; kpc scales; separation weighting; one small scale} on catalogs with >= 2 objects per patch and bin; "
     "transformations: rotations {straddling RA=0, centre on north pole, on south pole, pole on a patch "
     "border, generic}; row orders {reverse, rotate by one, swap first two, interleave | all permutations for "
     "n<=4}; every permutation of the centre list; weight factors {1e-3,0.5,2,1e3} on each of the four catalogs; "
@@ -34,6 +34,8 @@ CONFIGS = [
     dict(binning="B2r", scales="ang3", unit="deg", rweight=None, res=None),
     dict(binning="B2r", scales="ang2", unit="kpc", rweight=None, res=None),
     dict(binning="B2l", scales="ang2", unit="deg", rweight=-1.0, res=3),
+    # one small scale: patch pairs are linked only thanks to the radius of the widest catalog
+    dict(binning="B2r", scales="ang1", unit="deg", rweight=None, res=None),
 ]
 FACTORS = (1e-3, 0.5, 2.0, 1e3)
 
@@ -41,10 +43,10 @@ FACTORS = (1e-3, 0.5, 2.0, 1e3)
 def cases(tier, seed):
     out = []
     if tier == "quick":
-        pas, pbs, zs, nps, confs = ["b0", "w0", "n0"], ["b1", "c1", "n0"], [0, -1], [2, 3], [0, 1]
+        pas, pbs, zs, nps, confs = ["b0", "w0", "n0"], ["b1", "c1", "n0"], [0, -1], [2, 3], [0, 1, 3]
     else:
         pas, pbs, zs, nps, confs = (["c0", "b0", "w0", "n0", "f0"], ["c1", "b1", "n0", "n1", "f1"], [0, -1],
-                                    [2, 3], [0, 1, 2])
+                                    [2, 3], [0, 1, 2, 3])
     for ci, pa, za, pb, npatch in itertools.product(confs, pas, zs, pbs, nps):
         base = dict(conf=ci, pa=pa, za=za, pb=pb, npatch=npatch, seed=seed)
         for w in ("straddle", "npole", "spole", "midpole", "generic"):
@@ -91,6 +93,9 @@ def build(case):
         RR += [o(c, mids[0], "RR0", 0.31), o(c, mids[-1], "RR1", -0.25), o(c, mids[0], "RR2", 1.2),
                o(c, mids[-1], "RR3", 1.5, 1)]
         UR += [o(c, None, "UR0", -0.45), o(c, None, "UR1", 0.9, 1)]
+    # two more reference objects in patch 0 only: which catalog counts as "largest" then depends on the
+    # patch labelling (per-patch record counts are compared as tuples), so relabelling toggles it
+    R += [o("c0", mids[-1], "R3", -0.3), o("c0", mids[0], "R4", 0.15, 1)]
     R.append(o(case["pa"], mids[case["za"]], "a"))
     U.append(o(case["pb"], None, "b"))
     return conf, [R, U, RR, UR]
